@@ -7,4 +7,4 @@ Require Import Fsic.Base.PyBase Fsic.Parser.PyStr Fsic.Parser.Lex Fsic.Parser.Fo
                Fsic.Eval.Eval Fsic.CodeGen.CodeGen Fsic.CodeGen.CodeGenBlock.
 Extraction Language OCaml.
 Extraction "Extract/CodeGen/codegen_model.ml"
-  program_of_script code_text equation_text string_of_Z split_M parse_equation_M lex_items scan_items text_guard block_of_script.
+  program_of_script program_of_script_checked lex_code tight_statement code_text equation_text string_of_Z split_M parse_equation_M lex_items scan_items text_guard block_of_script.
